@@ -31,6 +31,7 @@ fn main() {
         std::process::exit(2);
     }
     util::silence_panics();
+    util::start_hang_monitor(&args[0]);
     let rest = &args[1..];
     // A panic of the code under test that a driver did not intercept is still an observation:
     // report it (exit 3) instead of dying with a backtrace.
